@@ -546,7 +546,7 @@ def _conn_filter_signature(f):
 
 
 def r_legacy(prog, R):
-    r = R.rule("R-C10-LEGACY", "ares_fds / ares_getsock / channel_socket_list agree on iteration, filter and WRITE condition", floor=4, analysis="A-TAB")
+    r = R.rule("R-C10-LEGACY", "ares_fds / ares_getsock / channel_socket_list agree on iteration, filter and WRITE condition (STATE_WRITE alone, for UDP and TCP)", floor=6, analysis="A-TAB")
     fds = prog.func("ares_fds")
     gs = prog.func("ares_getsock")
     sl = prog.func("channel_socket_list")
@@ -565,6 +565,31 @@ def r_legacy(prog, R):
             r.ok("agree:%s" % item, fds.loc(fds.ln))
         else:
             r.viol("agree:%s" % item, "ares_fds/ares_getsock", fds.loc(fds.ln), "legacy enumerators disagree on '%s': ares_fds=%s ares_getsock=%s" % (item, item in s1, item in s2))
+    # the WRITE interest is reported for every connection that has unsent bytes, UDP as much as TCP (a datagram that met EWOULDBLOCK is parked in
+    # out_buf exactly like a TCP frame): the test is the STATE_WRITE flag alone, in both enumerators
+    for f in (fds, gs):
+        mf = MustFacts(f)
+        found = False
+        for b in f.blocks.values():
+            br = f.branch(b)
+            if not br:
+                continue
+            ats = atoms(br[0], True)
+            if not any(is_flag_test(strip(c), lambda x: is_field(x, "state_flags", "ares_conn"), "ARES_CONN_STATE_WRITE") and p for c, p in ats):
+                continue
+            found = True
+            extra = [render(strip(c)) for c, p in ats if not is_flag_test(strip(c), lambda x: is_field(x, "state_flags", "ares_conn"), "ARES_CONN_STATE_WRITE")]
+            for c, p in mf.cond_facts_at(b, len(b.els)):
+                if p and is_flag_test(strip(c), lambda x: is_field(x, "flags", "ares_conn"), "ARES_CONN_FLAG_TCP"):
+                    extra.append(render(strip(c)))
+            k = "write-interest:%s depends on STATE_WRITE only" % f.name
+            if extra:
+                r.viol(k, f.name, f.loc(b.term.get("ln", f.ln)), "%s reports a socket as writable only if additionally '%s': a UDP socket holding an unsent datagram (send met EWOULDBLOCK, bytes parked in out_buf) is "
+                       "never reported, the application never gets a write event and the request is never sent" % (f.name, "' and '".join(extra)))
+            else:
+                r.ok(k, f.loc(b.term.get("ln", f.ln)))
+        if not found:
+            r.broke("no branch on ARES_CONN_STATE_WRITE in %s" % f.name)
     # idle-UDP omission: the `continue` guard is !active_queries && !(flags & TCP) in both
     for f in (fds, gs):
         mf = MustFacts(f)
